@@ -2045,7 +2045,12 @@ class CodeGenerator(NodeVisitor):
         saved_ctx = frame.eval_ctx.save()
         self.writeline(f"{old_ctx_name} = context.eval_ctx.save()")
         self.visit_EvalContextModifier(node, frame)
+        # the body can be left with break or continue
+        self.writeline("try:")
+        self.indent()
+        self.writeline("pass")
         for child in node.body:
             self.visit(child, frame)
+        self.outdent()
         frame.eval_ctx.revert(saved_ctx)
-        self.writeline(f"context.eval_ctx.revert({old_ctx_name})")
+        self.writeline(f"finally: context.eval_ctx.revert({old_ctx_name})")
